@@ -532,12 +532,12 @@ func main() {
 	do("cfg")
 	R := r.R
 	codes := map[string]string{
-		"store":   "600a600c600039600a6000f3" + "60003560005500", // deploys: SSTORE(0, calldata[0])
-		"logger":  "6005600c60003960056000f3" + "60006000a0",     // deploys: LOG0(0,0) on every call
+		"store":  "600a600c600039600a6000f3" + "60003560005500", // deploys: SSTORE(0, calldata[0])
+		"logger": "6005600c60003960056000f3" + "60006000a0",     // deploys: LOG0(0,0) on every call
 		// deploys: SSTORE(0..2, BLOCKHASH(NUMBER-2 / -1 / -3)), SSTORE(3, NUMBER), SSTORE(4, TIMESTAMP), SSTORE(5, COINBASE):
 		// whatever of the block context the EVM exposes must be a function of the chain (C05), also on a
 		// replica that was restarted since the blocks it looks back at
-		"env":     "6025600c60003960256000f3" + "6002430340600055" + "6001430340600155" + "6003430340600255" + "43600355" + "42600455" + "41600555" + "00",
+		"env": "6025600c60003960256000f3" + "6002430340600055" + "6001430340600155" + "6003430340600255" + "43600355" + "42600455" + "41600555" + "00",
 		// mortal: empty call data -> SELFDESTRUCT(caller); otherwise returns 42
 		//   CALLDATASIZE PUSH1 06 JUMPI CALLER SELFDESTRUCT JUMPDEST PUSH1 2a PUSH1 00 MSTORE PUSH1 20 PUSH1 00 RETURN
 		"mortal": "6011600c60003960116000f3" + "36600657" + "33ff" + "5b" + "602a600052" + "60206000f3",
